@@ -107,7 +107,7 @@ vars == <<ff, rq, pc, mode, tx, pub, res, last, g>>
 
 NoFF  == [live |-> FALSE, start |-> 0, end |-> 0, width |-> 0, pos |-> 0, cur |-> 0, delta |-> 0]
 NoRq  == [budget |-> 0, weight |-> 1, maxrate |-> 0, relay |-> 0, totalin |-> 0, reqout |-> 0,
-          dust |-> 0, deadline |-> 0, sopt |-> -1, est |-> 0]
+          dust |-> 0, deadline |-> 0, sopt |-> -1, est |-> 0, prevmax |-> 0]
 NoTx  == [err |-> "none", rate |-> 0, fee |-> 0, change |-> 0]
 NoPub == [n |-> 0, rate |-> 0, fee |-> 0, change |-> 0]
 NoRes == [event |-> "none", err |-> "none", rate |-> 0]
@@ -198,7 +198,8 @@ New(p, dl) ==
      IN  /\ ff' = n.f
          /\ last' = [op |-> "new", inc |-> FALSE, err |-> n.err]
          /\ g' = [G0 EXCEPT !.minct = p.ct]
-  /\ rq' = [NoRq EXCEPT !.relay = p.relay, !.sopt = p.sopt, !.maxrate = p.maxrate, !.est = p.est]
+  /\ rq' = [NoRq EXCEPT !.relay = p.relay, !.sopt = p.sopt, !.maxrate = p.maxrate, !.est = p.est,
+                        !.prevmax = IF p.sopt > 0 THEN p.sopt ELSE 0]
   /\ pc' = "ff"
   /\ UNCHANGED <<mode, tx, pub, res>>
 
@@ -208,6 +209,16 @@ BumpFF(ct, r) == pc = "ff" /\ FFBump(ct, r) /\ UNCHANGED <<rq, pc, mode, tx, pub
 -----------------------------------------------------------------------------
 (* publisher mode                                                           *)
 
+(* REGROUPING.  Every input carries the fee rate it was offered last (its     *)
+(* Params.StartingFeeRate: the retry rate of a failed sweep, the rate of a   *)
+(* previous tx found at start-up, or the user's; 0 = none).  When the        *)
+(* aggregator puts inputs into one set, BudgetInputSet.StartingFeeRate is    *)
+(* the LARGEST of them (none if all are 0), and UtxoSweeper.sweep hands that *)
+(* to the publisher as BumpRequest.StartingFeeRate.  A request is therefore  *)
+(* given as p.prevmax (the largest rate any of its inputs was offered) and   *)
+(* p.sopt, which must be SetStart(p.prevmax) (invariant RegroupStart).       *)
+SetStart(prevmax) == IF prevmax > 0 THEN prevmax ELSE -1
+
 (* a BumpRequest is handed to the publisher: storeInitialRecord *)
 Request(p) ==
   /\ pc = "none"
@@ -216,12 +227,17 @@ Request(p) ==
   /\ ff' = NoFF /\ tx' = NoTx /\ pub' = NoPub /\ res' = NoRes /\ last' = NoLast /\ g' = G0
 
 (* the sweeper offers the inputs of a failed attempt again, starting at the  *)
-(* rate the failed attempt handed back (sweeper.go markInputsPublishFailed) *)
-Retry ==
+(* rate the failed attempt handed back (sweeper.go markInputsPublishFailed); *)
+(* the aggregator may group them differently (inputs dropped by its filter,  *)
+(* other wallet inputs): any request p whose inputs carry that rate          *)
+Regroup(p) ==
   /\ pc = "gone" /\ res.event = "Failed" /\ res.rate > 0
-  /\ rq' = [rq EXCEPT !.sopt = res.rate]
+  /\ p.prevmax = res.rate          \* markInputsPublishFailed: every input of the failed set carries the rate
+  /\ rq' = p
   /\ pc' = "ready" /\ mode' = "initial"
   /\ ff' = NoFF /\ tx' = NoTx /\ pub' = NoPub /\ res' = NoRes /\ last' = NoLast /\ g' = G0
+(* ... in the model: the same set again *)
+Retry == Regroup([rq EXCEPT !.sopt = res.rate, !.prevmax = res.rate])
 
 ConfAt(height) == Max(rq.deadline - height, 0)          \* calcCurrentConfTarget
 
@@ -425,6 +441,14 @@ PubFeeExact     == (InPub /\ pub.n > 0) =>
 PubCeilByDeadline ==
   (pc \in {"mon", "gone"} /\ g.minct <= 1 /\ g.envok /\ CreateAt(Ceiling).err = "none" /\ ~CeilTrigger)
      => (pub.n > 0 /\ pub.rate >= Ceiling)
+
+(* -- regrouping ---------------------------------------------------------- *)
+(* the set starts at the largest rate any of its inputs was already offered *)
+RegroupStart == InPub => rq.sopt = SetStart(rq.prevmax)
+(* so that the rate offered for an input never decreases across regrouping  *)
+(* (up to the ceiling of the new set)                                       *)
+RegroupNoDecrease == (InPub /\ ff.live) => ff.cur >= Min(rq.prevmax, ff.end)
+PubRegroupNoDecrease == (InPub /\ pub.n > 0) => pub.rate >= Min(rq.prevmax, ff.end)
 
 (* the same without the trigger guards: what the deviations break (used to   *)
 (* show at model level that RoundCeil = TRUE / ClampStart = FALSE violate    *)
